@@ -132,6 +132,7 @@ def check(model, tier):
 
     # ---- R07.4 chain pruning + flags
     structure.r06_1_flags(ctx, rule="R07.4")
+    structure.r14_9_engine_plumbing(ctx, rule="R07.10")
 
     # ---- R07.5 totality and validating re-insertion
     dispatch.r08_1_totality(ctx, rule="R07.5", scope="generic")
